@@ -806,6 +806,23 @@ func runC13(args []string) error {
 	}
 	var mu sync.Mutex
 
+	// ---------------------------------------------------------------- 0. Use must not write into the caller's maps
+	// One interpreter is built sequentially before anything runs in parallel: if New/Use/fixStdlib modified
+	// the process-wide stdlib.Symbols, the in-process streams below would share (and concurrently write) one
+	// table; they are then run one at a time, and the modification itself is reported.
+	workers := 0
+	sigBefore := c13SymbolSig(stdlib.Symbols)
+	if _, err := c13NewInterp(interp.Options{Stdout: &bytes.Buffer{}, Stderr: &bytes.Buffer{}, Stdin: strings.NewReader(""), Args: []string{"prog"}, Env: []string{"A=1"}}, true); err != nil {
+		return err
+	}
+	if d := c13SigDiff(sigBefore, c13SymbolSig(stdlib.Symbols)); d != "" {
+		workers = 1
+		sm.HarnessViolations = append(sm.HarnessViolations, refMismatch{ID: 0, Region: "", Input: "interp.New + Use(stdlib.Symbols) + ImportUsed of one interpreter",
+			Impl: "entries of the process-wide stdlib.Symbols were replaced: " + d, Ref: "stdlib.Symbols is only read"})
+	} else {
+		sm.count("use-leaves-symbols-unchanged")
+	}
+
 	// ---------------------------------------------------------------- A. keys of stdlib.Symbols at run time
 	var keys []string
 	for k := range stdlib.Symbols {
@@ -865,7 +882,7 @@ func runC13(args []string) error {
 		detail string
 	}
 	cres := make([]cellRes, len(cells))
-	parallelMap(len(cells), 0, func(i int) {
+	parallelMap(len(cells), workers, func(i int) {
 		c := cells[i]
 		if c.form == "FImportUsed" && c.key != "" && c.bare == "" {
 			cres[i] = cellRes{true, "ambiguous bare name"}
@@ -993,6 +1010,48 @@ func runC13(args []string) error {
 		sm.Notes = append(sm.Notes, "control: Options.Unrestricted did not read the host environment as documented")
 	}
 
+	// ---------------------------------------------------------------- D'. several interpreters in one process (child processes)
+	nIso := 40
+	if *tier == "thorough" {
+		nIso = 600
+	}
+	isoSteps := c13IsoFixed()
+	ri := r.fork()
+	for len(isoSteps) < nIso {
+		isoSteps = append(isoSteps, c13IsoRandom(ri))
+	}
+	isoRes := make([]c13IsoResult, len(isoSteps))
+	parallelMap(len(isoSteps), 0, func(i int) { isoRes[i] = c13RunIso(scratch, i, isoSteps[i]) })
+	var isoCases []string
+	for i, res := range isoRes {
+		in := map[string]any{"kind": "interpreters", "steps": isoSteps[i]}
+		cid := newID(in)
+		var ops []string
+		interps := map[int]bool{}
+		for _, st := range res.Steps {
+			ops = append(ops, st.coq())
+			interps[st.I] = true
+		}
+		isoCases = append(isoCases, fmt.Sprintf("(%d%%N, %s, %s, %s, %s)", cid, coqList(ops), coqList(res.Obs), coqList(res.Ref), coqBool(res.GlobSame)))
+		sm.Evaluations++
+		sm.ImplComparisons++
+		sm.RefComparisons++
+		sm.count("iso")
+		sm.Distribution["iso:evals"] += len(res.Obs)
+		sm.count(fmt.Sprintf("iso:interpreters:%d", len(interps)))
+		if len(interps) >= 2 {
+			b, _ := json.Marshal(isoSteps[i])
+			distinct.add("iso", string(b))
+		}
+		if len(res.Steps) < len(isoSteps[i]) || strings.Join(res.Obs, ";") != strings.Join(res.Ref, ";") || !res.GlobSame || len(res.Detail) > 0 {
+			sm.RefMismatches = append(sm.RefMismatches, refMismatch{ID: cid, Region: "", Input: in,
+				Impl: map[string]any{"reached": res.Obs, "symbol_tables_unchanged": res.GlobSame, "detail": res.Detail, "died": res.Died}, Ref: map[string]any{"reached": res.Ref, "symbol_tables_unchanged": true}})
+		}
+		if i == 2 {
+			sm.Samples = append(sm.Samples, in)
+		}
+	}
+
 	// ---------------------------------------------------------------- E. environment sequences (this process)
 	os.Setenv(c13Sentinel, fmt.Sprintf("host-secret-%d", *seed))
 	hostBefore := os.Environ()
@@ -1012,7 +1071,7 @@ func runC13(args []string) error {
 		ecs[i].env0, ecs[i].ops = c13GenEnv(g)
 		ecs[i].form = g.intn(3)
 	}
-	parallelMap(nEnv, 0, func(i int) {
+	parallelMap(nEnv, workers, func(i int) {
 		c := &ecs[i]
 		c.outs, c.fail = c13RunEnv(c.env0, c.ops, c.form)
 		c.ref = c13RefEnv(c.env0, c.ops)
@@ -1076,6 +1135,11 @@ func runC13(args []string) error {
 		sm.count("host-env-unchanged")
 	}
 
+	if d := c13SigDiff(sigBefore, c13SymbolSig(stdlib.Symbols)); d != "" && workers == 0 {
+		sm.HarnessViolations = append(sm.HarnessViolations, refMismatch{ID: 0, Region: "", Input: "all in-process streams",
+			Impl: "entries of the process-wide stdlib.Symbols were replaced during the run: " + d, Ref: "stdlib.Symbols is only read"})
+	}
+
 	// ---------------------------------------------------------------- write cases files
 	hdr := "From Verif Require Import Lib.Str Sandbox.Model Sandbox.Cases.\n"
 	write := func(name, body string) error {
@@ -1108,6 +1172,9 @@ func runC13(args []string) error {
 	if err := chunk("io", "io_case", "io_mis", ioCases, 200); err != nil {
 		return err
 	}
+	if err := chunk("iso", "iso_case", "iso_mis", isoCases, 300); err != nil {
+		return err
+	}
 	per := 250
 	if *tier == "thorough" {
 		per = 500
@@ -1118,6 +1185,7 @@ func runC13(args []string) error {
 	sm.DistinctNontriv = len(distinct)
 	sm.Exhaustive = false
 	sm.Rule = "import matrix: every key of stdlib.Symbols at run time plus unsafe, syscall, os/exec x 5 import forms (exhaustive); exit entry points and redirected I/O functions: the whole catalogue, each in its own child process (exhaustive over the catalogue); " +
+		"several interpreters in one process: fixed and seeded interleavings of New / Use(stdlib|unrestricted) / script compilations over 2..3 interpreters with their own Options, each in its own child process; " +
 		"environment: seeded sequences of 1..40 operations over 7 keys (empty key, key with '=', a host sentinel), values and ExpandEnv strings with '$' syntax, Options.Env with duplicates / missing '=' / empty entries, 3 import forms of os; " +
 		"distinct = distinct inputs; non-trivial = an environment sequence has >= 3 operation kinds and at least one mutation (every matrix cell and catalogue entry counts)"
 	sm.Notes = append(sm.Notes,
